@@ -143,7 +143,7 @@ def itoa_bytes(v):
 import re as _re
 _FS = _re.compile(r'^_ZNK?St1[34]basic_(fstream|ifstream|ofstream)IcSt11char_traitsIcEE(C[12]|D[012]|4open|5close|7is_open)E(.*)$')
 
-_RX = ('_ZNSt7__cxx1111basic_regexIcNS_12regex_traitsIcEEEC', '_ZNSt7__cxx1111basic_regexIcNS_12regex_traitsIcEEED', '_ZNSt8__detail17__regex_algo_impl',
+_RX = ('_ZSt15__regex_replaceISt20back_insert_iteratorINSt7__cxx1112basic_stringIcSt11char_traitsIcESaIcEEEEN9__gnu_cxx17__normal_iteratorIPKcS6_EENS1_12regex_traitsIcEEcET_', '_ZNSt7__cxx1111basic_regexIcNS_12regex_traitsIcEEEC', '_ZNSt7__cxx1111basic_regexIcNS_12regex_traitsIcEEED', '_ZNSt8__detail17__regex_algo_impl',
        '_ZNSt7__cxx1111basic_regexIcNS_12regex_traitsIcEEE10_M_compileEPKcS5_')
 def is_forced(name):
     return name.startswith(_RX) or name in FORCED or _FS.match(name) is not None or name.startswith('_ZNSt10filesystem7__cxx114pathC') or name.startswith('_ZNSt10filesystem7__cxx114pathD') \
@@ -230,11 +230,48 @@ def builtin(ex, st, fr, name, a, x, work):
     if name.startswith('_ZNSt10filesystem7__cxx114pathC'):
         S.add('std::filesystem::path(string) -> holds the string only (no component split)')
         src = a[1]
-        bs = read_string(ex, st, src) if ('basic_string' in name or 'NSt7__cxx11' in name[30:]) else cstr(ex, st, src)
+        bs = read_string(ex, st, src) if ('basic_string' in name or 'NSt7__cxx11' in name[30:] or name.endswith(('ERKS1_', 'EOS1_'))) else cstr(ex, st, src)
         make_string(ex, st, a[0], bs)
         ex.store_val(st, Ptr(a[0].obj, a[0].off + 32), I64, 0)
         return 0
     if name.startswith('_ZNSt10filesystem7__cxx114pathD'): return 0
+    # std::filesystem::path beyond construction: the path IS its string (member 0); the component list (member at +32) stays empty
+    if name in ('_ZNSt10filesystem7__cxx114path5_ListC1Ev', '_ZNSt10filesystem7__cxx114path5_ListC2Ev', '_ZNSt10filesystem7__cxx114path5_ListC1ERKS2_', '_ZNSt10filesystem7__cxx114path5_ListC2ERKS2_',
+                '_ZNSt10filesystem7__cxx114path5_ListC1EOS2_'):
+        S.add('std::filesystem::path component list -> empty (the path is its string)'); ex.store_val(st, a[0], I64, 0); return 0
+    if name in ('_ZNSt10filesystem7__cxx114path5_ListaSERKS2_', '_ZNSt10filesystem7__cxx114path5_ListaSEOS2_'): return a[0]
+    if name in ('_ZNKSt10filesystem7__cxx114path5_List13_Impl_deleterclEPNS2_5_ImplE', '_ZNSt10filesystem7__cxx114path14_M_split_cmptsEv'): return 0
+    if name == '_ZNKSt10filesystem7__cxx114path18has_root_directoryEv':
+        S.add('std::filesystem::path::has_root_directory -> first character is a slash (POSIX)')
+        bs = read_string(ex, st, a[0])
+        if not bs: return False
+        return (bs[0] == 47) if isc(bs[0]) else (bs[0] == z3.BitVecVal(47, 8))
+    if name == '_ZNSt10filesystem7__cxx114pathdVERKS1_':
+        S.add('std::filesystem::path::operator/= -> string concatenation with one separator; an absolute right-hand side replaces (POSIX)')
+        l = read_string(ex, st, a[0]); r = read_string(ex, st, a[1])
+        if not l: out = list(r)
+        elif r and not isc(r[0]): raise Violation('unsupported', 'path /= with a symbolic first character', st)
+        elif r and r[0] == 47: out = list(r)
+        else:
+            out = list(l)
+            if out and not (isc(out[-1]) and out[-1] == 47): out.append(47)
+            out += r
+        make_string(ex, st, a[0], out); return a[0]
+    if name in ('_ZNSt10filesystem9canonicalERKNS_7__cxx114pathE', '_ZNSt10filesystem8absoluteERKNS_7__cxx114pathE'):
+        S.add('std::filesystem::canonical/absolute -> the path itself if it names a registered memfile, else filesystem_error (no other files exist)')
+        bs = read_string(ex, st, a[1])
+        known = getattr(st, 'mfnames', {})
+        if all(isc(b) for b in bs) and bytes(bs).decode('latin1') in known and 'absolute' not in name:
+            make_string(ex, st, a[0], bs); ex.store_val(st, Ptr(a[0].obj, a[0].off + 32), I64, 0); return 0
+        if 'absolute' in name:
+            make_string(ex, st, a[0], ([] if (bs and isc(bs[0]) and bs[0] == 47) else [47]) + list(bs)); ex.store_val(st, Ptr(a[0].obj, a[0].off + 32), I64, 0); return 0
+        # a symbolic name can only equal a registered name if the solver allows it; the harnesses register none in that case
+        if known and not all(isc(b) for b in bs): raise Violation('unsupported', 'canonical() of a symbolic path with registered files', st)
+        eobj = Ptr(ex.new_obj(st, 64, 'exception'), 0)
+        ex.store_val(st, eobj, PTR(I8), Ptr(ex.exc_vtable(st), 0))
+        st.exc = (eobj, '_ZTINSt10filesystem7__cxx1116filesystem_errorE')
+        from llsym import Throw
+        raise Throw()
     if name in ('_ZNSt10filesystem11resize_fileERKNS_7__cxx114pathEm',):
         S.add('std::filesystem::resize_file -> truncate / zero-extend the named memfile')
         fname = bytes(read_string(ex, st, a[0])).decode('latin1'); n = a[1]
@@ -564,6 +601,41 @@ def builtin(ex, st, fr, name, a, x, work):
         for k in range(0, 32, 8): ex.store_val(st, Ptr(a[0].obj, a[0].off + k), I64, 0)
         ex.store_val(st, a[0], PTR(I8), Ptr(po, 0)); return 0
     if name.startswith('_ZNSt7__cxx1111basic_regexIcNS_12regex_traitsIcEEED'): return 0
+    if name.startswith('_ZSt15__regex_replace'):
+        import re as _pyre
+        S.add('std::regex_replace(string, regex, fmt) into a back_inserter -> Python re.sub; on symbolic text only for whitespace-trimming patterns (one path per whitespace pattern of the bytes)')
+        out, p0, p1, rx, fmtp, flen = a[0], a[1], a[2], a[3], a[4], a[5]
+        if p0.obj != p1.obj or not (isc(p0.off) and isc(p1.off)) or not isc(flen): raise Violation('unsupported', 'regex_replace subject range', st)
+        subj = [ex.load_val(st, Ptr(p0.obj, i), I8) for i in range(p0.off, p1.off)]
+        fm = [ex.load_val(st, Ptr(fmtp.obj, fmtp.off + i), I8) for i in range(flen)]
+        if not all(isc(b) for b in fm) or 36 in fm or 92 in fm: raise Violation('unsupported', 'regex_replace format string', st)
+        pp = ex.load_val(st, rx, PTR(I8)); pat = []
+        for i in range(4096):
+            b = ex.load_val(st, Ptr(pp.obj, pp.off + i), I8)
+            if b == 0: break
+            pat.append(b)
+        pat = bytes(pat).decode('latin1'); fms = bytes(fm).decode('latin1')
+        def append(state, bs): make_string(ex, state, out, read_string(ex, state, out) + list(bs))
+        if all(isc(b) for b in subj):
+            append(st, _pyre.sub(pat, lambda m: fms, bytes(subj).decode('latin1')).encode('latin1')); return out
+        if fm or _pyre.sub(r'\\s|[\^$+*|()?]', '', pat): raise Violation('unsupported', 'regex_replace on symbolic text with pattern ' + pat, st)
+        def isspace(b): return z3.Or(b == 32, z3.And(z3.UGE(b, 9), z3.ULE(b, 13)))
+        sym = [i for i, b in enumerate(subj) if not isc(b)]
+        feas = []; block = []
+        while True:
+            m = ex.sat(st, z3.And(*block) if block else None)
+            if m is None: break
+            cls = [z3.is_true(m.eval(isspace(subj[i]), model_completion=True)) for i in sym]
+            cnd = z3.And(*[isspace(subj[i]) if c else z3.Not(isspace(subj[i])) for i, c in zip(sym, cls)])
+            rep = [(b if isc(b) else None) for b in subj]
+            for i, c in zip(sym, cls): rep[i] = 32 if c else 120
+            gone = set()
+            for mm in _pyre.finditer(pat, bytes(rep).decode('latin1')): gone.update(range(mm.start(), mm.end()))
+            feas.append((cnd, [b for i, b in enumerate(subj) if i not in gone])); block.append(z3.Not(cnd))
+            if len(feas) > 64: raise Violation('unsupported', 'regex_replace: too many whitespace patterns', st)
+        if not feas: return 'infeasible'
+        for cnd, res in feas[:-1]: ex.fork_ret(st, x, cnd, out, work, post=lambda o, r=res: append(o, r))
+        cnd, res = feas[-1]; ex.assume(st, cnd); append(st, res); return out
     if name.startswith('_ZNSt8__detail17__regex_algo_impl'):
         import re as _pyre
         def text_of(p0, p1):
@@ -602,6 +674,14 @@ def builtin(ex, st, fr, name, a, x, work):
             out = None
         if out is None: S.add('fmt::vformat -> empty string for non-trivial format specs'); make_string(ex, st, a[0], []); return 0
         S.add('fmt::vformat -> "{}" placeholders with string/integer arguments formatted'); make_string(ex, st, a[0], out); return 0
+    if name == '_ZNSt8__detail15_List_node_base7_M_hookEPS0_':
+        S.add('std::list node hook/unhook -> doubly linked list surgery as in libstdc++')
+        n = a[0]; pos = a[1]; prev = ex.load_val(st, Ptr(pos.obj, pos.off + 8), PTR(I8))
+        ex.store_val(st, n, PTR(I8), pos); ex.store_val(st, Ptr(n.obj, n.off + 8), PTR(I8), prev)
+        ex.store_val(st, prev, PTR(I8), n); ex.store_val(st, Ptr(pos.obj, pos.off + 8), PTR(I8), n); return 0
+    if name == '_ZNSt8__detail15_List_node_base9_M_unhookEv':
+        n = a[0]; nxt = ex.load_val(st, n, PTR(I8)); prev = ex.load_val(st, Ptr(n.obj, n.off + 8), PTR(I8))
+        ex.store_val(st, prev, PTR(I8), nxt); ex.store_val(st, Ptr(nxt.obj, nxt.off + 8), PTR(I8), prev); return 0
     # ---------------- std::_Rb_tree support (libstdc++.so internals): unbalanced BST with the same header/leftmost/rightmost contract
     if name == '_ZSt29_Rb_tree_insert_and_rebalancebPSt18_Rb_tree_node_baseS0_RS_':
         S.add('std::_Rb_tree_insert_and_rebalance -> BST insert without rebalancing (same lookups and in-order iteration)')
